@@ -28,6 +28,7 @@ From Seq Require Import HB.
 From ASModel Require Import Inv InvTl InvProto InvStep Sum StepCases GenDefs Gen1 Gen2 Gen EnvDefs Env4 Env AccDefs Acc1 Acc2 Acc3 Acc4 Acc5 Acc6 Acc7 Acc.
 From ASModel Require Import ProtDefs Prot1 Prot11 Prot16 Prot Typed LinDefs Lin2 Lin Safe1 Safe2 Safe7 Safe8 Safe Main.
 From ASModel Require Import LinCas5 LinCas LinSwap1 LinSwap2 LinSwap3 LinSwap4 LinSwap LinSwapMain.
+From ASModel Require Import Stale2 Stale2Inv Stale2W.
 
 Theorem C04_only_rmw_writes :
   forall cf s t x c,
@@ -150,3 +151,55 @@ Print Assumptions C04_accounting.
 Print Assumptions C04_returned_value_alive.
 Print Assumptions C04_swap_linearizable.
 Print Assumptions C04_store_linearizable.
+
+(** ** With the four weakened loads of [Stale2.step_stale2] (see Props/C01.v): the loads that
+    compare_and_swap and rcu perform take the same fast path, whose first read and slot scan may be
+    stale; [one_write_s2], [no_write_s2], ... are the run notions of the original theorems over
+    [step_stale2]. *)
+Theorem C04_swap_linearizable_stale2 :
+  forall cf inits progs sched t i c v h2 b pa pb xa tb xb,
+    let s0 := init_state inits progs in
+    let St := fun k => StS2 cf s0 sched k in
+    RunOKS2 cf inits progs sched ->
+    nth_error (t_prog (thr s0 t)) (N.to_nat i) = Some (CSwap c v h2) ->
+    (pa <= pb)%nat ->
+    nth_error sched pa = Some (t, xa) ->
+    t_status (thr (St pa) t) = Running -> t_stack (thr (St pa) t) = [] -> t_cmdi (thr (St pa) t) = i ->
+    cmd_enabled (St pa) (CSwap c v h2) = true ->
+    src_val (St pa) v = Some b ->
+    nth_error sched pb = Some (tb, xb) ->
+    t_cmdi (thr (St pb) t) = i -> t_cmdi (thr (St (S pb)) t) = i + 1 ->
+    exists old j, hnd (St (S pb)) h2 = HOwned old /\ one_write_s2 cf s0 sched t c old b pa pb j.
+Proof. exact swap_linearizable_stale2. Qed.
+
+Theorem C04_store_linearizable_stale2 :
+  forall cf inits progs sched t i c v b pa pb xa tb xb,
+    let s0 := init_state inits progs in
+    let St := fun k => StS2 cf s0 sched k in
+    RunOKS2 cf inits progs sched ->
+    nth_error (t_prog (thr s0 t)) (N.to_nat i) = Some (CStore c v) ->
+    (pa <= pb)%nat ->
+    nth_error sched pa = Some (t, xa) ->
+    t_status (thr (St pa) t) = Running -> t_stack (thr (St pa) t) = [] -> t_cmdi (thr (St pa) t) = i ->
+    cmd_enabled (St pa) (CStore c v) = true ->
+    src_val (St pa) v = Some b ->
+    nth_error sched pb = Some (tb, xb) ->
+    t_cmdi (thr (St pb) t) = i -> t_cmdi (thr (St (S pb)) t) = i + 1 ->
+    tb = t /\ exists old j, one_write_s2 cf s0 sched t c old b pa pb j /\ released_once_s2 cf s0 sched t old pa pb j xb.
+Proof. exact store_linearizable_stale2. Qed.
+
+Theorem C04_every_removed_value_returned_stale2 :
+  forall cf inits progs sched c t old new,
+    let s0 := init_state inits progs in
+    let St := fun k => StS2 cf s0 sched k in
+    RunOKS2 cf inits progs sched ->
+    In (t, old, new) (writes_of_trace c (snd (run_stale2 cf s0 sched))) ->
+    exists j x, nth_error sched j = Some (t, x) /\
+      In (old, new) (writes_in c (snd (step_stale2 cf (St j) t x))) /\
+      forall i v h2 b pa pb, swap_call_s2 cf s0 sched t i c v h2 b pa pb -> (pa <= j <= pb)%nat ->
+        new = b /\ hnd (St (S pb)) h2 = HOwned old.
+Proof. exact every_removed_value_returned_stale2. Qed.
+
+Print Assumptions C04_swap_linearizable_stale2.
+Print Assumptions C04_store_linearizable_stale2.
+Print Assumptions C04_every_removed_value_returned_stale2.
